@@ -420,37 +420,37 @@ const (
 )
 
 var stdEffects = map[string]effect{
-	"(*bytes.Buffer).Write":       effRecvOnly,
-	"(*bytes.Buffer).WriteString": effRecvOnly,
-	"(*bytes.Buffer).WriteByte":   effRecvOnly,
-	"(*bytes.Buffer).Reset":       effRecvOnly,
-	"(*bytes.Buffer).Next":        effRecvOnly,
-	"(*bytes.Buffer).ReadByte":    effRecvOnly,
-	"(*bytes.Buffer).UnreadByte":  effRecvOnly,
-	"(*bytes.Buffer).Read":        effAll,
-	"(*bytes.Buffer).Bytes":       effNone,
-	"(*bytes.Buffer).Len":         effNone,
-	"(*bytes.Buffer).String":      effNone,
-	"bytes.NewBuffer":             effNone,
-	"bytes.NewReader":             effNone,
-	"bytes.Equal":                 effNone,
-	"fmt.Sprintf":                 effNone,
-	"fmt.Sprint":                  effNone,
-	"fmt.Errorf":                  effNone,
-	"fmt.Printf":                  effNone,
-	"fmt.Println":                 effNone,
-	"errors.New":                  effNone,
-	"encoding/hex.EncodeToString": effNone,
-	"strconv.Itoa":                effNone,
-	"encoding/binary.Write":       effRecvOnly, // writes to the io.Writer (argument 0), reads data
-	"strings.Join":                effNone,
+	"(*bytes.Buffer).Write":          effRecvOnly,
+	"(*bytes.Buffer).WriteString":    effRecvOnly,
+	"(*bytes.Buffer).WriteByte":      effRecvOnly,
+	"(*bytes.Buffer).Reset":          effRecvOnly,
+	"(*bytes.Buffer).Next":           effRecvOnly,
+	"(*bytes.Buffer).ReadByte":       effRecvOnly,
+	"(*bytes.Buffer).UnreadByte":     effRecvOnly,
+	"(*bytes.Buffer).Read":           effAll,
+	"(*bytes.Buffer).Bytes":          effNone,
+	"(*bytes.Buffer).Len":            effNone,
+	"(*bytes.Buffer).String":         effNone,
+	"bytes.NewBuffer":                effNone,
+	"bytes.NewReader":                effNone,
+	"bytes.Equal":                    effNone,
+	"fmt.Sprintf":                    effNone,
+	"fmt.Sprint":                     effNone,
+	"fmt.Errorf":                     effNone,
+	"fmt.Printf":                     effNone,
+	"fmt.Println":                    effNone,
+	"errors.New":                     effNone,
+	"encoding/hex.EncodeToString":    effNone,
+	"strconv.Itoa":                   effNone,
+	"encoding/binary.Write":          effRecvOnly, // writes to the io.Writer (argument 0), reads data
+	"strings.Join":                   effNone,
 	"(*strings.Builder).WriteString": effRecvOnly,
-	"time.Unix":                   effNone,
-	"(time.Time).Unix":            effNone,
-	"(time.Time).UnixNano":        effNone,
-	"(time.Time).Nanosecond":      effNone,
-	"(time.Time).Before":          effNone,
-	"(time.Time).After":           effNone,
-	"(time.Time).Sub":             effNone,
-	"(time.Time).Add":             effNone,
+	"time.Unix":                      effNone,
+	"(time.Time).Unix":               effNone,
+	"(time.Time).UnixNano":           effNone,
+	"(time.Time).Nanosecond":         effNone,
+	"(time.Time).Before":             effNone,
+	"(time.Time).After":              effNone,
+	"(time.Time).Sub":                effNone,
+	"(time.Time).Add":                effNone,
 }
